@@ -6,6 +6,7 @@ CONSTANTS
   TTL = 5
   Validity = 2
   MaxClock = 6
+  Margin = 1
   NoReverify = FALSE
   KeyIgnoresName = FALSE
 INVARIANTS ServedValid CacheHoldsOwnName CapacityRespected
